@@ -15,7 +15,8 @@ import (
 // symbolic); the set is chosen by the registry parameter H01c.set so that every property
 // exercises the constructs it is about over many steps:
 // 0 general (C01), 1 state carried across batches (C07), 2 binary operators (C05),
-// 3 functions, scalars and @-pinned parts (C06). foo{a="y"} ends inside the window, so
+// 3 functions, scalars and @-pinned parts (C06), 4 selection with offset/@ incl. the same
+// selector pinned and unpinned in one query (C02), 5 range functions in composition: offsets/@ on range selectors, merged selects (C03), 6 aggregations as planned from the query text: by/without incl. empty lists, parameters (C04). foo{a="y"} ends inside the window, so
 // scalar(foo{a="y"}) is absent at later steps.
 var verifAlignSets = [][]string{
 	{
@@ -33,6 +34,7 @@ var verifAlignSets = [][]string{
 		`last_over_time(foo[50s] @ 100)`,
 		`-foo`,
 		`changes(foo[100s] offset 15s)`,
+		`foo @ start() - foo`,
 	},
 	{
 		`clamp_min(foo, scalar(foo{a="y"}))`,
@@ -43,6 +45,7 @@ var verifAlignSets = [][]string{
 		`foo + on(a) group_left bar`,
 		`time() - foo @ 200`,
 		`max by (a) (foo) > bool 4`,
+		`foo @ start() - foo`,
 	},
 	{
 		`foo + scalar(foo{a="y"})`,
@@ -53,6 +56,8 @@ var verifAlignSets = [][]string{
 		`foo > bool 3`,
 		`2 - foo`,
 		`foo == on(a) bar`,
+		`(foo + on(a) bar) + time()`,
+		`(foo{a="x"} * on(a) bar) - on(a) bar`,
 	},
 	{
 		`clamp_min(foo, scalar(foo{a="y"}))`,
@@ -63,6 +68,42 @@ var verifAlignSets = [][]string{
 		`clamp_max(foo, scalar(foo{a="y"}) + 2)`,
 		`pi() * time() + foo`,
 		`-foo`,
+		`-(-foo)`,
+		`-(-(foo @ 60)) + time()`,
+	},
+	{
+		`foo @ start() - foo`,
+		`foo - foo @ end()`,
+		`foo offset 45s`,
+		`foo @ 200`,
+		`foo{a="x"} @ 100 + on(a) foo`,
+		`foo @ start() + foo offset 20s`,
+		`sum(foo @ start()) + sum(foo)`,
+		`foo`,
+	},
+	{
+		`count_over_time(foo[70s])`,
+		`max_over_time(foo{a="x"}[1m] offset 30s) - on(a) foo`,
+		`last_over_time(foo[50s] @ 100)`,
+		`resets(foo[3m])`,
+		`changes(foo[100s] offset 15s)`,
+		`sum_over_time(foo{a="x"}[1m] offset 45s) + on(a) group_left() foo`,
+		`min_over_time(foo[45s] @ end())`,
+		`present_over_time(foo[20s])`,
+		`max_over_time(foo[1m]) - min_over_time(foo[1m] offset 20s)`,
+	},
+	{
+		`sum without () (foo)`,
+		`count without () (foo)`,
+		`max by (b) (foo)`,
+		`sum by (a, b) (foo)`,
+		`topk by (b) (1, foo)`,
+		`quantile(0.5, foo)`,
+		`min without (a) (foo)`,
+		`group by (a) (foo)`,
+		`count(foo) by (b)`,
+		`bottomk(1, foo)`,
+		`sum(foo) by (b) / count(foo) by (b)`,
 	},
 }
 
@@ -106,7 +147,11 @@ func verifAlignData(d int64, n int) []*stub.Series {
 func VerifH01c() {
 	sym.RealReference()
 	set := verifAlignSets[sym.Param("H01c.set", 0)]
-	qs := set[sym.Choice("query", sym.Tier(8, len(set)))]
+	nq := len(set)
+	if nq > 9 {
+		nq = 9
+	}
+	qs := set[sym.Choice("query", sym.Tier(nq, len(set)))]
 	d := sym.Int64("phase", 0, 29999)
 	start := sym.Int64("start", 0, 90000)
 	lookback := sym.Int64("lookback", 1, 200000)
